@@ -416,7 +416,8 @@ def _child(spec: dict) -> dict:  # noqa: C901, PLR0915, PLR0912
         t0 = time.monotonic()
         for n, delay in enumerate(delays):
             alarm_handles.append(loop.set_alarm_in(delay, mk_alarm(n, t0 + delay)))
-        alarm_handles.append(loop.set_alarm_in(spec.get("backstop", 2.5), backstop))
+        if spec.get("backstop", 2.5) is not None:  # (None: a session with no alarm pending at all, the loop waits for input only)
+            alarm_handles.append(loop.set_alarm_in(spec.get("backstop", 2.5), backstop))
         return t0
 
     t_set = set_alarms(spec.get("alarms", [0.09, 0.17]))
@@ -510,10 +511,12 @@ def _child(spec: dict) -> dict:  # noqa: C901, PLR0915, PLR0912
                 # ctrl-z / fg: the application's own SIGTSTP handler (handlers="custom") keeps the process from really stopping
                 st["suspending"] = True
                 os.kill(os.getpid(), signal.SIGTSTP)
-                wait_for(lambda: not screen.started, 0.5)
-                log.append({"site": "suspended", "started": bool(screen.started), "termios_restored": termios.tcgetattr(slave) == tc_before, "t": time.monotonic()})
+                if wait_for(lambda: not screen.started, 2.0):
+                    log.append({"site": "suspended", "started": bool(screen.started), "termios_restored": termios.tcgetattr(slave) == tc_before, "t": time.monotonic()})
+                else:
+                    log.append({"site": "suspend_not_observed", "t": time.monotonic()})  # starved main thread: not judged
                 os.kill(os.getpid(), signal.SIGCONT)
-                wait_for(lambda: screen.started, 0.5)
+                wait_for(lambda: screen.started, 2.0)
                 st["suspending"] = False
                 ok = wait_for(lambda i0=len(log): screen.started and seen_after(i0, "flush") is not None, STEP_WAIT)
                 log.append({"site": "resumed", "started": bool(screen.started), "t": time.monotonic()})
@@ -558,6 +561,13 @@ def _child(spec: dict) -> dict:  # noqa: C901, PLR0915, PLR0912
                 log.append({"site": "step2", "n": n, "t": time.monotonic(), "first_read_seen": i1 is not None})
                 os.write(master, arg[1].encode("latin-1"))
                 wait_for(lambda i0=len(log): settled(i0, "filter"), STEP_WAIT)
+            elif kind == "grow":
+                # a truncated sequence that GROWS during complete_wait and stays incomplete: frag1, a short gap, frag2, silence
+                os.write(master, arg[0].encode("latin-1"))
+                time.sleep(float(arg[2]))
+                os.write(master, arg[1].encode("latin-1"))
+                hold["t"] = time.monotonic()
+                log.append({"site": "grown", "n": n, "t": hold["t"]})
             elif kind == "part1":
                 # only the FIRST fragment of a key: it stays pending in the screen until a later step completes it
                 os.write(master, arg.encode("latin-1"))
